@@ -130,6 +130,20 @@ type VVal struct{ Vals []string }
 // Clone implements the generated parser's Cloner interface.
 func (v VVal) Clone() any { return VVal{Vals: append([]string(nil), v.Vals...)} }
 
+// MVal is a Cloner of map kind whose elements are references: copying the map
+// alone does not separate two stores, Clone has to be called.
+type MVal map[string]*string
+
+// Clone implements the generated parser's Cloner interface.
+func (m MVal) Clone() any {
+	out := MVal{}
+	for k, v := range m {
+		c := *v
+		out[k] = &c
+	}
+	return out
+}
+
 // Node is what actions return.
 type Node struct {
 	Site int
@@ -189,6 +203,11 @@ func Render(v any) string {
 		return "C{" + strings.Join(v.Vals, ",") + "}"
 	case VVal:
 		return "V{" + strings.Join(v.Vals, ",") + "}"
+	case MVal:
+		if e, ok := v["e"]; ok {
+			return "M{" + *e + "}"
+		}
+		return "M{}"
 	case error:
 		return "err(" + v.Error() + ")"
 	case bool, int, uint64:
@@ -354,8 +373,10 @@ func (p *Plan) StateOps(site, n int) []StateOp {
 			ops = append(ops, StateOp{"del", key, ""})
 		case isC && sel == 2:
 			ops = append(ops, StateOp{"nil", key, ""}) // a key holding nil is a key
-		case isC && sel == 3:
+		case isC && sel == 3 && i == 0:
 			ops = append(ops, StateOp{"vmut", "w" + key[1:], val})
+		case isC && sel == 3:
+			ops = append(ops, StateOp{"mmut", "m" + key[1:], val})
 		case isC && sel < 6:
 			ops = append(ops, StateOp{"cmut", "c" + key[1:], val})
 		case isC:
@@ -385,6 +406,13 @@ func ApplyReal(st map[string]any, ops []StateOp) {
 			}
 		case "nil":
 			st[op.Key] = nil
+		case "mmut":
+			if m, ok := st[op.Key].(MVal); ok && m["e"] != nil {
+				*m["e"] += "+" + op.Val // through the shared element, on purpose
+			} else {
+				v := op.Val
+				st[op.Key] = MVal{"e": &v}
+			}
 		case "vmut":
 			if v, ok := st[op.Key].(VVal); ok && len(v.Vals) > 0 {
 				v.Vals[0] += "+" + op.Val // through the shared backing array, on purpose
@@ -435,6 +463,9 @@ func misbehave(st map[string]any, site, n int) {
 		}
 		if v, ok := st[k].(VVal); ok && len(v.Vals) > 0 {
 			v.Vals[0] += "+BAD"
+		}
+		if m, ok := st[k].(MVal); ok && m["e"] != nil {
+			*m["e"] += "+BAD"
 		}
 	}
 	for _, k := range keys {
@@ -498,6 +529,10 @@ func InitVal(s string) any {
 	}
 	if strings.HasPrefix(s, "V:") {
 		return VVal{Vals: strings.Split(s[2:], ",")}
+	}
+	if strings.HasPrefix(s, "M:") {
+		v := s[2:]
+		return MVal{"e": &v}
 	}
 	return s
 }
